@@ -776,7 +776,7 @@ pub fn net_oracles_learn(ctx: &mut Ctx, spec: &NetSpec, net: &Network, job: &Lea
     let (tl, vl, va) = match res {
         Ok(v) => v,
         Err(c) => {
-            if is(ctx, &["C04", "C13", "C09"]) && job.batch >= 1 && !job.xs.is_empty() && job.val.as_ref().map_or(true, |v| v.2 >= 1) && c != "nan" {
+            if is(ctx, &["C04", "C13", "C09", "C03"]) && job.batch >= 1 && !job.xs.is_empty() && job.val.as_ref().map_or(true, |v| v.2 >= 1) && c != "nan" {
                 ctx.oracle(false, "learn-panics", "training must run on valid arguments", desc, format!("panic ({})", c), "histories".into());
             }
             return;
@@ -1186,6 +1186,20 @@ pub fn direct_c05(ctx: &mut Ctx) {
             let n = 24;
             let xs: Vec<Tensor> = (0..n).map(|_| input_for(&mut g, &spec.input)).collect();
             let ts: Vec<Tensor> = (0..n).map(|_| target_for(&mut g, &Sh::Flat(3), "ce")).collect();
+            jobs.push((spec, xs, ts));
+        }
+        // a block whose input feeds SEVERAL later repetitions (input skips, three and four loops): the gradients coming back over
+        // all of them are added, whatever order a freshly built network's tables are walked in
+        for loops in [3usize, 4] {
+            use crate::gen::arch::dense_spec;
+            let dcfg = ArchCfg { dropout: false, wscale: 0.6, ..ArchCfg::small() };
+            let inner = dense_spec(&mut g, &dcfg, 3, 3, "tanh", true);
+            let head = dense_spec(&mut g, &dcfg, 3, 2, "linear", true);
+            let spec = NetSpec { input: Shape::Single(3), builds: vec![Build::Feedback { inner: vec![inner], loops, inskips: true, outskips: loops == 4, acc: "add".into() }, Build::Layer(head)],
+                skipacc: "add".into(), loopacc: "mean".into(), opt: Some(crate::ops::scalar::OptSpec::Sgd(0.05, None)), obj: "mse".into(), clamp: None };
+            let n = 24;
+            let xs: Vec<Tensor> = (0..n).map(|_| input_for(&mut g, &Shape::Single(3))).collect();
+            let ts: Vec<Tensor> = (0..n).map(|_| target_for(&mut g, &Sh::Flat(2), "mse")).collect();
             jobs.push((spec, xs, ts));
         }
         // soft-max outputs whose maximum is TIED between several classes (output rows shared in period 4; a bias-free ReLU layer
